@@ -1341,6 +1341,18 @@ def reader_out(o, p):
     return None
 
 
+def decode_table(byts):
+    """bytes.decode('utf8') on every byte string of the documents (None = UnicodeError)"""
+    rows, out = [], {}
+    for b in sorted(byts):
+        try:
+            out[b] = b.decode('utf8')
+        except UnicodeError:
+            out[b] = None
+        rows.append('(%s, %s)' % (gtext(b), gopt(out[b], gtext)))
+    return glist(rows), out
+
+
 def reader_tables(check, prot, pname, strs, byts):
     """the protocol's text readers on every str / bytes of the documents: Coq association lists"""
     rows_s, rows_b = [], []
@@ -1359,14 +1371,10 @@ def reader_tables(check, prot, pname, strs, byts):
                            % (pname, p, s, o), {'kind': 'reader', 'protocol': pname, 'prim': p, 'text': s})
                 t = '(Crash OtherExn)'
             rows_s.append('(%s, %s, %s)' % (g_dprim(p), gtext(s), t))
-    for p in ('int', 'i32', 'u8', 'i64', 'text'):
-        cls = prim_class(p)
+    if pname != 'msgpack':
         for b in sorted(byts):
-            o = observe(prot.unicode_from_bytes, cls, b) if p == 'text' else observe(prot.from_unicode, cls, b)
-            t = reader_out(o, p)
-            if t is None:
-                t = '(Crash OtherExn)'
-            rows_b.append('(%s, %s, %s)' % (g_dprim(p), gtext(b), t))
+            o = observe(prot.from_unicode, prim_class('bytes'), b, prot.binary_encoding)
+            rows_b.append('(%s, %s, %s)' % (g_dprim('bytes'), gtext(b), reader_out(o, 'bytes') or '(Crash OtherExn)'))
     return glist(rows_s), glist(rows_b)
 
 
@@ -1382,6 +1390,11 @@ Fixpoint tab_get (t : list (dprim * text * out nv)) (p : dprim) (s : text) : out
   match t with
   | [] => Crash OtherExn
   | (q, k, r) :: rest => if dprim_eqb p q && text_eqb s k then r else tab_get rest p s
+  end.
+Fixpoint dec_get (t : list (text * option text)) (b : text) : option text :=
+  match t with
+  | [] => None
+  | (k, r) :: rest => if text_eqb b k then r else dec_get rest b
   end.
 Definition flt_eqb (a b : flt) : bool :=
   match a, b with FInt x, FInt y => x =? y | FFrac, FFrac | FNan, FNan | FInf, FInf => true | _, _ => false end.
@@ -1496,10 +1509,15 @@ def corr_dict(check, tier):
                                 o = ('ok', nvv)
                             cases.append(('(%s, %s, %s, %s, %s)' % (gbool(soft), gbool(fn == 'fdv'), g_dty(ty), g_jv(doc), gout(o, g_nv)),
                                           'universe %d %s wrappers=%s soft=%s %s %r %s: %r -> %r' % (ui, pname, wrappers, soft, fn, ty, muts, doc, o)))
+                dec_rows, decoded = decode_table(byts)
+                for t in decoded.values():
+                    if t is not None:
+                        strs.add(t)
                 rs, rb = reader_tables(check, prots[True], pname, strs, byts)
                 imports = (DICT_IMPORTS + DICT_DEFS + 'Definition UU : duniverse := %s.\nDefinition RS : list (dprim * text * out nv) := %s.\nDefinition RB : list (dprim * text * out nv) := %s.\n'
-                           'Definition CF (soft : bool) : dcfg := mkdcfg %s soft %s (dict_leaf %s) (tab_get RS) (tab_get RB).\n'
-                           % (guniv, rs, rb, PROTOS[pname], gbool(not wrappers), PROTOS[pname]))
+                           'Definition DEC : list (text * option text) := %s.\n'
+                           'Definition CF (soft : bool) : dcfg := mkdcfg %s soft %s (dict_leaf %s) (tab_get RS) (tab_get RB) (dec_get DEC).\n'
+                           % (guniv, rs, rb, dec_rows, PROTOS[pname], gbool(not wrappers), PROTOS[pname]))
                 lib.correspond(check, 'dict_%s' % pname, imports, 'bool * bool * dty * jv * out nv',
                                '(fun c : bool * bool * dty * jv * out nv => let \'(soft, leafwise, t, d, o) := c in out_eqb nv_eqb '
                                '(if leafwise then fdv (CF soft) UU %d t true d else doc_to_object (CF soft) UU %d t d) o)' % (FUEL, FUEL),
@@ -1693,7 +1711,7 @@ def oracle_witnesses(check, tier):
                             'body': body, 'mutations': ['witness'], 'header': 0 if envns else None})
             if envns:
                 # SOAP headers are not covered by validator=lxml
-                hdr = '<t:Base %s><w>1000000000000000000000000000000</w><u>300</u><l>-9223372036854775809</l></t:Base>' % ns
+                hdr = '<t:Base %s><w>2147483648</w><u>300</u><l>-9223372036854775809</l></t:Base>' % ns
                 for keep in ('w', 'u', 'l'):
                     h = etree.fromstring(hdr)
                     for c in list(h):
@@ -1781,8 +1799,9 @@ def run(check):
     check.assumptions = [
         'XML leaf readers return values of their own kind (hypothesis of C04_xml_typed / C04_xml_args_typed; discharged for '
         'Integer/Unicode/Boolean by C04_xml_typed_spyne over the C08 reader models)',
-        'dict-document text readers (from_unicode on a str / bytes) return values of their own kind (hypothesis rd_kind of the dict '
-        'theorems; observed for every string of every generated document: the reader tables of the correspondence)',
+        'dict-document text readers (from_unicode on a str; ByteArray from bytes) return values of their own kind (hypothesis rd_kind '
+        'of the dict theorems; observed for every string of every generated document: the reader tables of the correspondence); '
+        'bytes.decode(utf8) of byte strings is an observed table too (any function in the theorems)',
         'universes are well formed: acyclic single inheritance (parents precede children), distinct flattened member names, '
         'single-valued XmlAttribute members',
         'modelled leaf set: XML Integer/Unicode/Boolean; dict Integer family with hardware bounds, Double, Boolean, Unicode, Date, '
